@@ -101,6 +101,38 @@ func inBubble(t *testing.T, f func()) (res bubbleResult) {
 	return bubbleResult{Frozen: "the bubble did not finish within " + limit.String() + " of real time"}
 }
 
+// spinning decides, after a real-time budget ran out, whether a call is really stuck in a loop:
+// it samples all goroutine stacks n times and reports true when a goroutine having frame (a
+// substring of a function name) on its stack was running or runnable - never blocked - in at least
+// 3/4 of the samples. A loaded machine makes calls slow, not spinning; only this verdict may turn
+// a timeout into a violation.
+func spinning(frame string, n int) (bool, string) {
+	buf := make([]byte, 4<<20)
+	hits, last := 0, ""
+	for i := 0; i < n; i++ {
+		dump := string(buf[:runtime.Stack(buf, true)])
+		for _, g := range strings.Split(dump, "\n\n") {
+			if !strings.Contains(g, frame) {
+				continue
+			}
+			head := g
+			if j := strings.Index(g, "\n"); j > 0 {
+				head = g[:j]
+			}
+			if strings.Contains(head, "[running") || strings.Contains(head, "[runnable") {
+				hits++
+				last = g
+				break
+			}
+		}
+		time.Sleep(50 * time.Millisecond)
+	}
+	if len(last) > 2500 {
+		last = last[:2500]
+	}
+	return hits*4 >= n*3, last
+}
+
 func inBubbleUnguarded(t *testing.T, f func()) (res bubbleResult) {
 	defer func() {
 		if p := recover(); p != nil {
